@@ -55,6 +55,7 @@ theorem keeps_basic (env : Env) : Basic env Keeps where
   callDest := fun w d m => Keeps.ofFrame (frame_callDest env w d m)
   stagePush := fun w _ => KeepsL.refl w.acts
   bufferSet := fun w _ => KeepsL.refl w.acts
+  ghostSlot := fun w _ _ => KeepsL.refl w.acts
   clock := fun w => KeepsL.refl w.acts
   nextLevel := fun w h => Keeps.ofFrame (frame_nextLevel w h)
   freshAction := fun w t s => Keeps.ofFrame (frame_freshAction w t s)
@@ -73,6 +74,7 @@ theorem keeps_basic (env : Env) : Basic env Keeps where
 theorem keeps_basicCfg (env : Env) : BasicCfg env Keeps where
   startDelivery := fun w _ => KeepsL.refl w.acts
   extendDests := fun w _ => KeepsL.refl w.acts
+  popPending := fun w => KeepsL.refl w.acts
   removeDest := fun w _ => KeepsL.refl w.acts
   addGlobals := fun w _ => KeepsL.refl w.acts
 
@@ -112,7 +114,8 @@ theorem lt_of_get {α} {l : List α} {i : Nat} {a : α} (h : l[i]? = some a) : i
   · rw [List.getElem?_eq_none hl] at h; cases h
 
 theorem nextLevel_of_get {w : World} {h : Nat} {a : Act} (ha : w.acts[h]? = some a) :
-    w.nextLevel h = ({ w with acts := w.acts.set h { a with last := a.last + 1 }, slots := w.slots ++ [(h, a.last + 1)] },
+    w.nextLevel h = ({ w with acts := w.acts.set h { a with last := a.last + 1 }, slots := w.slots ++ [(h, a.last + 1)],
+                              lastSlot := some (h, a.last + 1) },
       a.level ++ [a.last + 1]) := by
   simp only [World.nextLevel, ha]
 
